@@ -132,3 +132,18 @@ add("C20", "exploration",
     "against a sequential deque (porcupine, cross-checked); all sequential histories up to length 7 (quick) / 9 (thorough) admissible under the quantifier agree with a "
     "reference list (exhaustive for that bound only); a logical deadlock watchdog. Concurrent schedules are sampled, not enumerated.",
     "DESIGN.md §3 C20", "Go race detector + 1-producer/1-consumer stress with stream oracle + porcupine linearizability of recorded histories + exhaustive sequential histories vs reference list")
+
+add("C14", "exploration",
+    "Exhaustive over the 192-cell factorial (both SSH transports x strict on/off x four known-hosts states x three auth configurations x two users x two servers) plus 192 "
+    "argument-list captures, against in-process SSH servers with fresh host keys and the real OpenSSH client: connections must be established exactly when strict checking "
+    "is off or the known-hosts file holds the server's key; the server must see the configured user and key, and the password only inside the auth exchange (absent from "
+    "argv and the child's environment). Evidence for one OpenSSH version on loopback.",
+    "DESIGN.md §3 C14", "real transports against an instrumented in-process SSH server + argv-capturing stand-in binary; exhaustive factorial")
+
+add("C16", "exploration",
+    "Exploration: 450 (quick) / 4500 (thorough) duplex transfers over the system (pty), standard (shell+pty, netconf subsystem) and telnet transports (read sizes 1-65535, "
+    "payloads around the read size, around 4096 and up to 1 MiB, all byte values and byte pairs) with byte-exact conservation oracles in both directions; every blocked read "
+    "must be released by Close(true) and by the peer going away; generated CLI and NETCONF sessions over the real transports (incl. the real OpenSSH client) are compared "
+    "with the same session over an ideal pipe. Known finding: NETCONF 1.1 over the system transport (tty echo of the trailing return inside a reply).",
+    "DESIGN.md §3 C16", "real transports against loopback peers (raw-mode pty stand-in, in-process SSH server, TCP) with byte-exact conservation oracles, bounded unblock checks and an end-to-end differential against an ideal pipe")
+NOT_YET = {}
